@@ -4,13 +4,13 @@ from common import SG
 
 
 class Lsp:
-    def __init__(self, cwd, env=None, folders_policy='immediate'):
+    def __init__(self, cwd, env=None, folders_policy='immediate', binary=None):
         e = dict(os.environ); e['NO_COLOR'] = '1'
         e.pop('AST_GREP_VERIF_LOG', None)
         if env:
             e.update(env)
         self.cwd = cwd
-        self.p = subprocess.Popen([SG, 'lsp'], cwd=cwd, stdin=subprocess.PIPE, stdout=subprocess.PIPE, stderr=subprocess.PIPE, env=e)
+        self.p = subprocess.Popen([binary or SG, 'lsp'], cwd=cwd, stdin=subprocess.PIPE, stdout=subprocess.PIPE, stderr=subprocess.PIPE, env=e)
         self.lock = threading.Lock()
         self.next_id = 1
         self.responses = {}
